@@ -1,27 +1,44 @@
-//! Virtual clock standing in for the `instant` crate: `Instant` is a millisecond counter the harness controls.
+//! Virtual clock standing in for the `instant` crate. `Instant` and `Duration` are microsecond
+//! counters (u64): additions and comparisons are plain 64-bit arithmetic for the solver, instead of
+//! std's (secs: u64, nanos: u32) with 128-bit conversions. The harness owns "now".
+//! API subset = what ggrs uses: Instant::{now, add/sub Duration, comparison}, Duration::{from_millis,
+//! from_micros, saturating_sub, as_millis, ==}.
 use std::sync::atomic::{AtomicU64, Ordering};
-pub use std::time::Duration;
 
-static NOW_MS: AtomicU64 = AtomicU64::new(1_000_000);
+static NOW_US: AtomicU64 = AtomicU64::new(1_000_000_000);
 
-pub fn set_now_ms(ms: u64) { NOW_MS.store(ms, Ordering::Relaxed); }
-pub fn now_ms() -> u64 { NOW_MS.load(Ordering::Relaxed) }
+pub fn set_now_ms(ms: u64) { NOW_US.store(ms * 1000, Ordering::Relaxed); }
+pub fn now_ms() -> u64 { NOW_US.load(Ordering::Relaxed) / 1000 }
+
+#[derive(Copy, Clone, Debug, PartialEq, Eq, PartialOrd, Ord, Hash, Default)]
+pub struct Duration(u64);
+impl Duration {
+    pub const fn from_millis(ms: u64) -> Self { Duration(ms * 1000) }
+    pub const fn from_micros(us: u64) -> Self { Duration(us) }
+    pub const fn from_secs(s: u64) -> Self { Duration(s * 1_000_000) }
+    pub fn saturating_sub(self, rhs: Duration) -> Duration { Duration(self.0.saturating_sub(rhs.0)) }
+    pub fn as_millis(&self) -> u128 { (self.0 / 1000) as u128 }
+    pub fn as_micros(&self) -> u128 { self.0 as u128 }
+}
 
 #[derive(Copy, Clone, Debug, PartialEq, Eq, PartialOrd, Ord, Hash)]
 pub struct Instant(u64);
 
 impl Instant {
-    pub fn now() -> Self { Instant(NOW_MS.load(Ordering::Relaxed)) }
-    pub fn duration_since(&self, earlier: Instant) -> Duration { Duration::from_millis(self.0.saturating_sub(earlier.0)) }
+    /// harness-only constructors/observers of the virtual clock
+    pub fn from_ms(ms: u64) -> Self { Instant(ms * 1000) }
+    pub fn as_ms(&self) -> u64 { self.0 / 1000 }
+    pub fn now() -> Self { Instant(NOW_US.load(Ordering::Relaxed)) }
+    pub fn duration_since(&self, earlier: Instant) -> Duration { Duration(self.0.saturating_sub(earlier.0)) }
     pub fn elapsed(&self) -> Duration { Instant::now().duration_since(*self) }
 }
 impl std::ops::Add<Duration> for Instant {
     type Output = Instant;
-    fn add(self, rhs: Duration) -> Instant { Instant(self.0 + rhs.as_millis() as u64) }
+    fn add(self, rhs: Duration) -> Instant { Instant(self.0 + rhs.0) }
 }
 impl std::ops::Sub<Duration> for Instant {
     type Output = Instant;
-    fn sub(self, rhs: Duration) -> Instant { Instant(self.0 - rhs.as_millis() as u64) }
+    fn sub(self, rhs: Duration) -> Instant { Instant(self.0 - rhs.0) }
 }
 impl std::ops::Sub<Instant> for Instant {
     type Output = Duration;
